@@ -2033,6 +2033,9 @@ func (pb *PositionedBlock) writeRLEs(indices map[uint32]struct{}, op *OutputOp, 
 	}
 	if bounds.Exact && bounds.Voxel.IsSet() {
 		bounds.Voxel.Adjust(&minPt, &maxPt)
+		if minPt[0] > maxPt[0] || minPt[1] > maxPt[1] || minPt[2] > maxPt[2] {
+			return nil // the bounds leave nothing of this block (the scan along x steps before it tests)
+		}
 	}
 
 	if len(pb.Labels) == 1 {
